@@ -520,9 +520,10 @@ def check(run):
 
 
 def replay_known(run):
-    """Replay the witnesses of the known findings of C14 (none at the moment)."""
+    """Replay the witnesses of the known findings of C14 and of the fixed ones (a fixed defect that reappears is not in the
+    list of known signatures any more, hence reported as a violation)."""
     kf = lib.load_findings()
-    for f in kf.get("findings", []):
+    for f in kf.get("findings", []) + kf.get("fixed", []):
         if f.get("property") != "C14":
             continue
         w = f.get("witness") or {}
